@@ -313,12 +313,20 @@ func imgpath2dQRSuite(c *Ctx) {
 		if s == nil {
 			continue
 		}
+		class := "qr-posed"
+		if r.Chance(0.35) { // damaged data modules away from the top-left finder (theorem qr_image_tolerates_block_errors)
+			n := s.GetWidth()
+			for j, nf := 0, r.Range(1, 8); j < nf; j++ {
+				s.Flip(r.Range(9, n-1), r.Range(9, n-10))
+			}
+			class = "qr-posed-damaged"
+		}
 		k := r.Range(1, 4)
 		q := func() int { return r.Pick([]int{0, 0, 1, 2, 3, 5, 9, 17}) }
 		m := detrestRender(s, float64(k), float64(k), q(), q(), q(), q())
 		if m.GetWidth() > 220 {
 			continue
 		}
-		imgpath2dQRPic(c, m, "qr-posed")
+		imgpath2dQRPic(c, m, class)
 	}
 }
